@@ -250,6 +250,7 @@ structure Settings where
   geo : Bool
   T : TestFn
   nconf : Nat := 0
+  test : String := "c"        -- "-" / "u" (UTest), "t" (TTest), "n" (NoDeltaTest), "c" (a custom DeltaTest)
 
 /-- documented metric names -/
 def metricName (unit : Str) : Str :=
@@ -378,9 +379,18 @@ def judgeRow (st : Settings) (unit : Str) (r : ImplRow) : String :=
   match r.cells with
   | [old, new] =>
     let t := st.T old.rv new.rv
+    -- the built-in tests have documented reasons only: "all equal", "too few samples", "zero variance"
+    -- (DeltaTest doc, delta.go); and the sample-size rule is part of the specification:
+    -- TTest needs two retained values on each side, UTest one
+    let builtin := st.test == "-" || st.test == "u" || st.test == "t" || st.test == "n"
+    let tooFew := (st.test == "t" && (old.rv.length ≤ 1 || new.rv.length ≤ 1)) ||
+                  ((st.test == "-" || st.test == "u") && (old.rv.length == 0 || new.rv.length == 0))
+    let undocumented := builtin && (match t with | .errOther _ => true | _ => false)
+    let t := if tooFew then TestRes.errSampleSize else t
     let alpha := if eq st.alpha posZero then c0_05 else st.alpha
     let sh := shown t alpha
     if sh != (r.delta != "~") then "gate"
+    else if undocumented && !tooFew then "note-undocumented-reason"
     else if r.note != noteOf t old.rv.length new.rv.length then "note"
     else if !sh then (if r.change != 0 || !(eq r.pd posZero) then "change-without-delta" else "ok")
     else if eq new.mean old.mean then (if r.delta == "0.00%" && r.change == 0 then "ok" else "equal-means")
